@@ -457,3 +457,71 @@ contract(
     native_setup=_native_bind,
     note='both defined HF indicators present; both values of each `enabled` enumerated',
 )
+
+
+# ---------------------------------------------------------------------------
+# AgProtocol._read_at: the handler that runs is the one named by the command's code and sub-code (dispatch)
+# ---------------------------------------------------------------------------
+def _ran(index):
+    def effect(ghost, *args):
+        ghost.ran = ghost.ran + [index]
+
+    return effect
+
+
+model('bumble.hfp:AgProtocol#disp', fields=dict(read_buffer=ByteArray, dlc=Inst('ghost:AgDlc')),
+      methods={h: Callback(h, effect=_ran(i)) for i, h in enumerate(HANDLERS)})
+
+
+def _code_sub(h):
+    name, sub = h[len('_on_'):], SUB.SET
+    if name.endswith('_test'):
+        name, sub = name[: -len('_test')], SUB.TEST
+    elif name.endswith('_read'):
+        name, sub = name[: -len('_read')], SUB.READ
+    return name.upper(), sub
+
+
+DISPATCH_CASES = [(i,) + _code_sub(h) for i, h in enumerate(HANDLERS)]
+# ... and commands for which no handler exists: an unknown code, and every known code with a sub-code it has no handler for
+_KNOWN = {(c, s) for (_, c, s) in DISPATCH_CASES}
+DISPATCH_CASES += [(-1, 'ZZZZ', s) for s in (SUB.SET, SUB.TEST, SUB.READ)]
+DISPATCH_CASES += [(-1, c, s) for c in sorted({c for (_, c, _) in DISPATCH_CASES if c != 'ZZZZ'}) for s in (SUB.SET, SUB.TEST, SUB.READ) if (c, s) not in _KNOWN]
+# sub-code NONE ("AT+CHUP", "ATA") dispatches like SET
+DISPATCH_CASES += [(i, c, SUB.NONE) for (i, c, s) in DISPATCH_CASES if s == SUB.SET and i >= 0]
+
+
+def dispatch_cmd(i, code, sub):
+    return Inst('bumble.hfp:AtCommand#g', code=Const(code), sub_code=Const(sub), parameters=Const([]), expect=Const(i))
+
+
+model('bumble.hfp:AtCommand#g', fields=dict(code=Str, sub_code=Any, parameters=Any, expect=Const(-2)))
+contract(
+    'bumble.hfp:AgProtocol._read_at',
+    key='bumble.hfp:AgProtocol._read_at@dispatch',
+    prop='C20',
+    profile='skeleton',
+    # one line; its content does not matter: the parser is the stub that yields the command of the case
+    params=dict(self=Inst('bumble.hfp:AgProtocol#disp'), data=Const(b'AT+X\r')),
+    ghost=dict(lines=Int, finals=Int, ncmd=Int, malformed=Const(False), ran=ListOf(Int), cmd=OneOf(*[dispatch_cmd(*c) for c in DISPATCH_CASES])),
+    requires=lambda self, data, ghost: [len(self.read_buffer) == 0, len(ghost.ran) == 0],
+    ensures=lambda self, old, ghost: [
+        ghost.ncmd == old.ghost.ncmd + 1,
+        # a handler exists: it runs, once, and nothing else answers; none exists: nothing runs and one ERROR goes out
+        implies(ghost.cmd.expect >= 0, ghost.ran == [ghost.cmd.expect] and ghost.finals == old.ghost.finals),
+        implies(ghost.cmd.expect < 0, len(ghost.ran) == 0 and ghost.finals == old.ghost.finals + 1 and ghost.lines == old.ghost.lines + 1),
+    ],
+    ensures_names=['one-command', 'the-named-handler-runs-once', 'no-handler:one-ERROR'],
+    invariants={0: lambda self, data, old, ghost: [
+        0 <= ghost.ncmd - old.ghost.ncmd and ghost.ncmd - old.ghost.ncmd <= 1,
+        implies(ghost.ncmd == old.ghost.ncmd, len(ghost.ran) == 0 and ghost.finals == old.ghost.finals and ghost.lines == old.ghost.lines
+                and bytes(self.read_buffer) == bytes(old.self.read_buffer) + data),
+        implies(ghost.ncmd == old.ghost.ncmd + 1, len(self.read_buffer) == 0
+                and implies(ghost.cmd.expect >= 0, ghost.ran == [ghost.cmd.expect] and ghost.finals == old.ghost.finals)
+                and implies(ghost.cmd.expect < 0, len(ghost.ran) == 0 and ghost.finals == old.ghost.finals + 1 and ghost.lines == old.ghost.lines + 1)),
+    ]},
+    modifies=['self.read_buffer', 'ghost.lines', 'ghost.finals', 'ghost.ncmd', 'ghost.ran'],
+    inline=['AgProtocol.send_*'],
+    stubs=AG_STUBS,
+    note='handlers are recording stubs here (what each of them sends is the family above)',
+)
